@@ -235,6 +235,15 @@ pub fn enter(tid: usize) {
     TID.with(|t| t.set(tid));
 }
 
+/// Runs `f` with the calling thread's hook switched off: set-up code (node creation, service creation) then
+/// contributes no stall positions, the sweep concentrates on the region that actually races.
+pub fn unhooked<R>(f: impl FnOnce() -> R) -> R {
+    let tid = TID.with(|t| t.replace(usize::MAX));
+    let r = f();
+    TID.with(|t| t.set(tid));
+    r
+}
+
 pub fn leave() -> (u64, u64) {
     let tid = TID.with(|t| t.replace(usize::MAX));
     if tid != usize::MAX {
